@@ -126,10 +126,18 @@ theorem neg_zero_normalised :
         · simp [hz] at h
         · simp [hz] at h; subst h; simpa using hz
     | str s => simp [normKeyK] at h
+    | big i => simp [normKeyK] at h
     | other i => simp [normKeyK] at h
   · intro a b ha hb h
     simp only [normKeyK]
     rw [(normKey_eq_iff_svz ha hb).2 h]
+
+/-- BigInt keys: distinct BigInts write distinct bytes to the hasher (sign byte + big-endian magnitude), equal ones the
+same — so `hash_respects_svz` and `lookup_decision_eq_svz` cover BigInt keys and only a maphash collision can put two
+different BigInts into one bucket. -/
+theorem bigint_hashpre_iff_eq (i j : Int) : hashPreK (.big i) = hashPreK (.big j) ↔ svz (.big i) (.big j) = true := by
+  simp only [hashPreK, svz, HashIn.bytes.injEq, beq_iff_eq]
+  exact ⟨bigHashPre_injective, fun h => by rw [h]⟩
 
 /-- Keys are SameValueZero-equal exactly when they are in the same class. -/
 theorem cls_eq_iff_svz {a b : Key} (ha : a.WF) (hb : b.WF) : cls a = cls b ↔ svz a b = true :=
